@@ -25,6 +25,7 @@ ATTR_KIND = {
     "fill-opacity": "number", "stroke-opacity": "number", "stroke-width": "length", "opacity": "number",
     "x": "length", "y": "length", "width": "length", "height": "length", "cx": "length", "cy": "length", "r": "length",
     "rx": "length", "ry": "length", "x1": "length", "y1": "length", "x2": "length", "y2": "length",
+    "style": "style",
 }
 
 BAD = {
@@ -34,6 +35,7 @@ BAD = {
     "points": ["1,2 3", "1,2,x", "junk", "1 2 3 4 5", "", ",", "1,,2", "1e 2", "a,b c,d", "1,2 3,4 5,", "(1,2)", "1;2 3;4"],
     "viewbox": ["0 0 100", "a b c d", "0,0,,", "", "0 0 0 0", "1 2 3 4 5", "0 0 -10 10", "0 0 1e400 1", "none", "0 0 100 x"],
     "number": ["junk", "1..", "-", "", "1e", "50%%", "0,5", "abc", "1e400", "++1"],
+    "style": ["fill:#gg;stroke:rgb(300,,)", "fill", ":::", "stroke-width:1..2", "fill:url(#nope)", "fill:#12;stroke-width:abc;;:", "stroke:hsl(1,2,3);fill-opacity:1e400", "transform:matrix(1 2 3)", "fill:rgb(1,2", ";", "fill:red;stroke-width:-;stroke:#1234567", "stroke-opacity:junk;fill:", "fill:red:blue", "d:M0,0 h"],
 }
 
 
@@ -86,6 +88,8 @@ def _paint(ch, attrs, classes):
         attrs["class"] = ch.choice(classes)
     if ch.coin(0.1):
         attrs["color"] = ch.choice(["red", "#00f", "lime"])
+    if ch.coin(0.04):
+        attrs["display"] = "none"
     if ch.coin(0.35):
         attrs["transform"] = ch.choice(TRANSFORMS)
 
@@ -387,7 +391,7 @@ def serialise(root, declaration=True, indent=False):
 # faults on attribute values (C10)
 # --------------------------------------------------------------------------
 
-FAULT_KINDS = ["path", "transform", "colour", "length", "points", "viewbox", "number", "use-missing", "use-self", "use-ancestor", "use-cycle"]
+FAULT_KINDS = ["path", "transform", "colour", "length", "points", "viewbox", "number", "style", "use-missing", "use-self", "use-ancestor", "use-cycle"]
 
 
 def bad_path(ch):
@@ -466,6 +470,11 @@ def apply_faults(ch, root, n_faults, bias=None):
             sel = [c for c in cands if c[2] == bias]
             pool = sel or cands
         e, a, k = ch.choice(pool)
+        if e is root and ch.coin(0.75):
+            # a fault on the root leaves only the no-raise/steps oracles: keep most faults below it
+            below = [c for c in pool if c[0] is not root] or [c for c in cands if c[0] is not root]
+            if below:
+                e, a, k = ch.choice(below)
         if k == "use":
             kind = ch.choice(["use-missing", "use-self", "use-ancestor", "use-cycle"])
             hk, _ = href_of(e)
